@@ -112,10 +112,11 @@ fn fill_ctx(arena: &mut Arena, cx: &mut ffi::ExecutionContext<'_>, r: &Recipe, c
                 o.insert(f.name.clone(), v.to_ctx_json());
             }
         }
-        let mut buf = serde_json::to_vec(&Value::Object(o)).unwrap();
+        // (kept allocated until the context is gone, so that a context that wrongly kept
+        // pointers into it reads scrubbed bytes instead of freed memory)
+        let buf = arena.keep_bytes_mut(serde_json::to_vec(&Value::Object(o)).unwrap());
         let ok = ffi::wirefilter_deserialize_json_to_execution_context(cx, buf.as_ptr(), buf.len());
         buf.iter_mut().for_each(|b| *b = b'#');
-        drop(buf);
         if !ok {
             return Err(Fail::new("c-api-setter-rejected-valid-value", format!("deserialize_json failed: {:?}", last_error().map(|e| String::from_utf8_lossy(&e.0).to_string())), case.clone()));
         }
@@ -137,7 +138,7 @@ fn fill_ctx(arena: &mut Arena, cx: &mut ffi::ExecutionContext<'_>, r: &Recipe, c
             (MVal::Ip(std::net::IpAddr::V4(a)), 0) => ffi::wirefilter_add_ipv4_value_to_execution_context(cx, np, nl, &a.octets()),
             (MVal::Ip(std::net::IpAddr::V6(a)), 0) => ffi::wirefilter_add_ipv6_value_to_execution_context(cx, np, nl, &a.octets()),
             (v, _) => {
-                let mut js = serde_json::to_vec(&v.to_ctx_json()).unwrap();
+                let js = arena.keep_bytes_mut(serde_json::to_vec(&v.to_ctx_json()).unwrap());
                 let ok = ffi::wirefilter_add_json_value_to_execution_context(cx, np, nl, js.as_ptr(), js.len());
                 js.iter_mut().for_each(|b| *b = b'#');
                 ok
